@@ -855,7 +855,13 @@ Definition valuesv2_val (xs : list string) : json :=
   JObj [("tagValues", jslice (fun v => JObj [("type", JStr "string"); ("value", JStr v)]) (opt_list xs))].
 
 (* unmarshal.SpanToJSONSpan (reader/utils/unmarshal/convert.go): the OTLP span as the service hands it over *)
-Inductive oval := OStr (s : string) | OBool (b : bool) | OInt (z : Z) | ODouble (bits : N) | OBytes (s : string).
+(* an attribute value (AnyValue) as proto.Unmarshal delivers it: one of the five scalar oneof members, no oneof at all,
+   an array of values, or a key-value list whose pairs may lack the value (KeyValue.Value is a nil pointer) *)
+Inductive oval :=
+| OStr (s : string) | OBool (b : bool) | OInt (z : Z) | ODouble (bits : N) | OBytes (s : string)
+| OUnset                                       (* an AnyValue whose oneof is not set *)
+| OArr (vs : list oval)                        (* AnyValue_ArrayValue *)
+| OKv (kvs : list (string * option oval)).     (* AnyValue_KvlistValue; None: a KeyValue without value *)
 Record ospan := { o_trace : string; o_span : string; o_parent : string; o_name : string; o_start : Z; o_end : Z;
                   o_attrs : list (string * oval); o_events : list (Z * string); o_status : option jstatus }.
 
@@ -892,6 +898,40 @@ Definition g_text (x : fl) : string :=
     if ((ex <? -4) || (6 <=? ex))%Z then exp_text neg D P else fixed_of_dec neg D P
   | _ => special_text x
   end.
+(* the default: branch of SpanToJSONSpan: json.Marshal(attr.Value.Value), encoding/json's reflection walk over the structs
+   protoc-gen-go generated for opentelemetry/proto/common/v1. The oneof wrappers have no json tags (member = Go field name:
+   StringValue, BoolValue, IntValue, DoubleValue, ArrayValue, KvlistValue, BytesValue), AnyValue.Value is an exported
+   interface field (member "Value", null when no oneof is set), ArrayValue.Values / KeyValueList.Values / KeyValue.Key /
+   KeyValue.Value carry `json:"...,omitempty"` (an empty list, an empty key, a nil value are left out), []byte is base64,
+   the unexported state / sizeCache / unknownFields are skipped. [oval_json v] is the tree written for the wrapper of v. *)
+Definition okv_member (any : oval -> json) (kv : string * option oval) : json :=
+  JObj (omit [("key", nonempty_str (fst kv)); ("value", option_map any (snd kv))]).
+Definition olist_val (items : list json) : json :=
+  JObj (match items with [] => [] | _ => [("values", JArr items)] end).
+Fixpoint oval_json (v : oval) : json :=
+  match v with
+  | OStr s => JObj [("StringValue", JStr s)]
+  | OBool b => JObj [("BoolValue", JBool b)]
+  | OInt z => JObj [("IntValue", jint z)]
+  | ODouble bits => JObj [("DoubleValue", jfloat bits)]
+  | OBytes s => JObj [("BytesValue", JStr (b64_enc s))]
+  | OUnset => JNull
+  | OArr vs => JObj [("ArrayValue", olist_val (map (fun x => JObj [("Value", oval_json x)]) vs))]
+  | OKv kvs => JObj [("KvlistValue", olist_val (map (okv_member (fun x => JObj [("Value", oval_json x)])) kvs))]
+  end.
+(* json.Marshal fails (UnsupportedValueError) when a NaN or an infinity sits anywhere inside *)
+Fixpoint oval_finite (v : oval) : bool :=
+  match v with
+  | ODouble bits => fl_finite (fl_of_bits bits)
+  | OArr vs => forallb oval_finite vs
+  | OKv kvs => forallb (fun kv => match snd kv with Some x => oval_finite x | None => true end) kvs
+  | _ => true
+  end.
+(* the values the type switch of SpanToJSONSpan sends to its default: branch *)
+Definition oval_default (v : oval) : bool := match v with OUnset | OArr _ | OKv _ => true | _ => false end.
+(* bVal, _ := json.Marshal(...); string(bVal): the error is dropped, the text is empty then *)
+Definition marshal_text (v : oval) : string :=
+  if oval_finite v then render (tokensJ_of (oval_json v)) else EmptyString.
 Definition oval_text (v : oval) : string :=
   match v with
   | OStr s => s
@@ -900,6 +940,7 @@ Definition oval_text (v : oval) : string :=
   | OInt z => int_text z
   | ODouble bits => g_text (fl_of_bits bits)
   | OBytes s => b64_enc s
+  | OUnset | OArr _ | OKv _ => marshal_text v
   end.
 (* the last service.name attribute with a non-empty string value *)
 Fixpoint service_name (attrs : list (string * oval)) (cur : string) : string :=
@@ -1357,18 +1398,50 @@ Fixpoint dec_jspans (f : nat) (l : list string) : list jspan :=
     end
   | _, _ => []
   end.
-(* trace: per span  trace span parent name start end #attrs {key kind value} #events {time name} hasStatus code message *)
+(* trace: per span  trace span parent name start end #attrs {key V} #events {time name} hasStatus code message
+   V ::= kind payload          kind s y b i d as before (two items); u: no oneof set, n: no value at all (payload empty)
+       | "a" count V*          array
+       | "k" count {key V}*    key-value list
+   fuel: the number of items *)
 Definition dec_oval (kind v : string) : oval :=
   if String.eqb kind "s" then OStr v
   else if String.eqb kind "y" then OBytes v
   else if String.eqb kind "b" then OBool (String.eqb v "true")
   else if String.eqb kind "i" then OInt (dec_Z v)
   else ODouble (dec_N v 0).
+Definition take_n {A : Type} (one : list string -> A * list string) : nat -> list string -> list A * list string :=
+  fix go (n : nat) (l : list string) : list A * list string :=
+    match n with
+    | O => ([], l)
+    | S n => let (x, l1) := one l in let (xs, l2) := go n l1 in (x :: xs, l2)
+    end.
+Definition or_unset (o : option oval) : oval := match o with Some v => v | None => OUnset end.
+Fixpoint take_oval (f : nat) (l : list string) {struct f} : option oval * list string :=
+  match f with
+  | O => (None, l)
+  | S f =>
+    match l with
+    | kind :: v :: r =>
+      if String.eqb kind "a" then
+        let (vs, r') := take_n (fun l => let (o, l') := take_oval f l in (or_unset o, l')) (dec_nat v) r in (Some (OArr vs), r')
+      else if String.eqb kind "k" then
+        let (kvs, r') := take_n (fun l => match l with
+                                          | k :: l0 => let (o, l') := take_oval f l0 in ((k, o), l')
+                                          | [] => ((EmptyString, None), [])
+                                          end) (dec_nat v) r in (Some (OKv kvs), r')
+      else if String.eqb kind "u" then (Some OUnset, r)
+      else if String.eqb kind "n" then (None, r)
+      else (Some (dec_oval kind v), r)
+    | _ => (None, [])
+    end
+  end.
 Fixpoint take_oattrs (n : nat) (l : list string) : list (string * oval) * list string :=
   match n, l with
-  | S n, k :: kind :: v :: r => let (a, r') := take_oattrs n r in ((k, dec_oval kind v) :: a, r')
+  | S n, k :: r0 => let (o, r) := take_oval (List.length r0) r0 in
+                    let (a, r') := take_oattrs n r in ((k, or_unset o) :: a, r')
   | _, _ => ([], l)
   end.
+
 Fixpoint dec_ospans (f : nat) (l : list string) : list ospan :=
   match f, l with
   | S f, tid :: sid :: pid :: nm :: st :: en :: na :: r =>
